@@ -107,6 +107,274 @@ fn sig(_c: &ProgCase, reason: &str) -> String {
     format!("c04:{}", kind)
 }
 
+// ---------------------------------------------------------------------------------------------
+// 16-bit-pointer clause: the same cases on the host (64-bit helpers) and under Miri for
+// msp430-none-elf (16-bit helpers); the traffic digests must agree.
+
+use crate::shared16::{run_case, Case16, Outcome16, MODELS16};
+
+fn interval16(l: u32, max_over: i64) -> BoxedStrategy<(i32, u32)> {
+    let li = l as i64;
+    prop_oneof![
+        3 => (0..l, 0..l).prop_map(|(a, b)| (a.min(b) as i32, a.max(b) - a.min(b) + 1)),
+        3 => (1i64..=max_over, 0..l).prop_map(|(k, e)| ((-k) as i32, (e as i64 + k + 1) as u32)),
+        3 => (0..l, 1i64..=max_over).prop_map(move |(s, k)| (s as i32, (li - s as i64 + k) as u32)),
+        2 => (1i64..=max_over, 1i64..=max_over).prop_map(move |(a, b)| ((-a) as i32, (li + a + b) as u32)),
+        1 => (1i64..=20, 1u32..=6).prop_map(|(gap, len)| ((-(gap + len as i64)) as i32, len)),
+        1 => (0i64..=20, 1u32..=6).prop_map(move |(gap, len)| ((li + gap) as i32, len)),
+        1 => (-5i32..(l as i32 + 5)).prop_map(|s| (s, 0u32)),
+    ]
+    .boxed()
+}
+
+/// Cases small enough for Miri on a 16-bit address space: the interpreter hands out fresh addresses
+/// for every temporary and runs out of its 64 KiB after a few hundred colour pulls, so one case
+/// per process and at most 120 points per rectangle.
+pub fn case16_strategy() -> BoxedStrategy<Case16> {
+    prop_oneof![3 => Just(0u8), 1 => Just(1u8)]
+        .prop_flat_map(move |m| {
+            let (fw, fh) = MODELS16[m as usize];
+            (Just(m), 1u16..=fw.min(12), 1u16..=fh.min(12), 0u8..4, any::<bool>(), any::<u32>(), any::<u16>(), any::<u16>())
+        })
+        .prop_flat_map(move |(m, w, h, rot, mirrored, seed, a, b)| {
+            let (fw, fh) = MODELS16[m as usize];
+            let ox = a % (fw - w + 1);
+            let oy = b % (fh - h + 1);
+            let (lw, lh) = if rot & 1 == 1 { (h as u32, w as u32) } else { (w as u32, h as u32) };
+            (Just((m, w, h, ox, oy, rot, mirrored, seed)), interval16(lw, 6), interval16(lh, 6), 0u8..10, any::<u32>())
+        })
+        .prop_map(|((model, w, h, ox, oy, rot, mirrored, seed), (rx, rw), (ry, mut rh), lsel, lraw)| {
+            if rw > 0 && rw as u64 * rh as u64 > 120 {
+                rh = (120 / rw).max(1);
+            }
+            let area = rw as u64 * rh as u64;
+            let len = match lsel {
+                0 | 1 => u32::MAX,
+                2 => 0,
+                3 => area.saturating_sub(1) as u32,
+                4 => (area + 1 + (lraw % 7) as u64) as u32,
+                5 | 6 => (lraw as u64 % (area + 1)) as u32,
+                _ => area as u32,
+            };
+            Case16 { model, w, h, ox, oy, rot, mirrored, rx, ry, rw, rh, len, seed }
+        })
+        .boxed()
+}
+
+fn case16_json(c: &Case16) -> Value {
+    serde_json::json!({"model": c.model, "w": c.w, "h": c.h, "ox": c.ox, "oy": c.oy, "rot": c.rot, "mirrored": c.mirrored,
+        "rx": c.rx, "ry": c.ry, "rw": c.rw, "rh": c.rh, "len": c.len, "seed": c.seed})
+}
+
+fn case16_from_json(v: &Value) -> Option<Case16> {
+    Some(Case16 {
+        model: v["model"].as_u64()? as u8,
+        w: v["w"].as_u64()? as u16,
+        h: v["h"].as_u64()? as u16,
+        ox: v["ox"].as_u64()? as u16,
+        oy: v["oy"].as_u64()? as u16,
+        rot: v["rot"].as_u64()? as u8,
+        mirrored: v["mirrored"].as_bool()?,
+        rx: v["rx"].as_i64()? as i32,
+        ry: v["ry"].as_i64()? as i32,
+        rw: v["rw"].as_u64()? as u32,
+        rh: v["rh"].as_u64()? as u32,
+        len: v["len"].as_u64()? as u32,
+        seed: v["seed"].as_u64()? as u32,
+    })
+}
+
+fn sample_cases(strat: BoxedStrategy<Case16>, n: usize, seed: u64) -> Vec<Case16> {
+    use proptest::strategy::ValueTree;
+    use proptest::test_runner::{Config as PtConfig, RngSeed, TestRunner};
+    let mut cfg = PtConfig::default();
+    cfg.rng_seed = RngSeed::Fixed(seed);
+    cfg.failure_persistence = None;
+    let mut runner = TestRunner::new(cfg);
+    (0..n).filter_map(|_| strat.new_tree(&mut runner).ok().map(|t| t.current())).collect()
+}
+
+#[derive(Debug, Clone, PartialEq)]
+enum Miri {
+    Agree,
+    Mismatch(String),
+    /// the interpreter ran out of its 16-bit address space: the case is skipped (counted), not judged
+    OutOfAddressSpace,
+}
+
+/// Run one case under Miri for msp430-none-elf. Err = tooling problem (inconclusive, never a violation).
+fn run_miri(c: &Case16, o: &Outcome16) -> Result<Miri, String> {
+    let tdir = std::env::var("VERIF_TARGET_DIR").unwrap_or_else(|_| "/verif/target".into());
+    let dir = format!("{}/h16", tdir);
+    std::fs::create_dir_all(&dir).map_err(|e| e.to_string())?;
+    let mut cmd = std::process::Command::new("cargo");
+    cmd.arg("+nightly").arg("miri").arg("run").arg("--target").arg("msp430-none-elf").arg("--target-dir").arg(format!("{}/miri", dir));
+    if cfg!(feature = "batch") {
+        cmd.arg("--features").arg("batch");
+    }
+    if let Ok(r) = std::env::var("VERIF_REPO_OVERRIDE") {
+        cmd.arg("--config").arg(format!("paths=[\"{}\"]", r));
+    }
+    cmd.arg("--");
+    cmd.arg(format!(
+        "{},{},{},{},{},{},{},{},{},{},{},{},{},{},{},{},{}",
+        c.model, c.w, c.h, c.ox, c.oy, c.rot, c.mirrored as u8, c.rx, c.ry, c.rw, c.rh, c.len, c.seed, o.ok as u8, o.hash, o.cmds, o.words
+    ));
+    cmd.current_dir("/verif/harness16").env("MIRI_NO_STD", "1").env("CARGO_NET_OFFLINE", "true").env_remove("RUSTFLAGS").env_remove("MIRIFLAGS");
+    let out = cmd.output().map_err(|e| format!("cannot run cargo miri: {}", e))?;
+    let stdout = String::from_utf8_lossy(&out.stdout).to_string();
+    let stderr = String::from_utf8_lossy(&out.stderr).to_string();
+    if stderr.contains("no more free addresses in the address space") {
+        return Ok(Miri::OutOfAddressSpace);
+    }
+    for line in stdout.lines() {
+        if let Some(rest) = line.strip_prefix("H16-MISMATCH case=") {
+            return Ok(Miri::Mismatch(format!(
+                "on a 16-bit-pointer target fill_contiguous produced different bus traffic than on the host (expected hash={} cmds={} words={}): {}",
+                o.hash, o.cmds, o.words, rest
+            )));
+        }
+        if line.starts_with("H16-PANIC") {
+            return Ok(Miri::Mismatch("on a 16-bit-pointer target fill_contiguous panicked (or pulled colours without bound)".to_string()));
+        }
+        if line.starts_with("H16-DONE cases=1 mismatches=0") {
+            return Ok(Miri::Agree);
+        }
+    }
+    let tail = |s: &str, n: usize| s.chars().rev().take(n).collect::<String>().chars().rev().collect::<String>();
+    Err(format!("16-bit runner did not complete: {} {}", tail(&stdout, 400), tail(&stderr, 1500)))
+}
+
+fn section16(ctx: &Ctx) -> Section {
+    let mut sec = Section::new(
+        &format!("msp430-miri[{}]", ctx.variant),
+        "fill_contiguous cases (displays of up to 12x12 on 24x24 Rgb565 / 20x13 Rgb666 framebuffers with generated window, offset, orientation; rectangles of every position class with overhangs up to 6 and at most 120 points; stream lengths 0 .. area+7 and infinite) executed one per process by Miri for msp430-none-elf, where usize is 16 bits and the crate's 16-bit take/skip helpers are the ones compiled; oracle: digest of the bus traffic equals the digest of the host run of the same case (the host code path is judged against the reference model by the fills section); non-trivial = rectangle clipped and stream reaches the first visible point",
+    );
+    let n = ctx.cases(240, 4000) as usize;
+    let cases = sample_cases(case16_strategy(), n, ctx.seed ^ 0x16);
+    let with: Vec<(Case16, Outcome16)> = cases.iter().map(|c| (*c, run_case(c))).collect();
+    if with.is_empty() {
+        return sec;
+    }
+    // the first invocation builds the crate (and, on a fresh machine, the Miri sysroot): do it alone
+    let first = run_miri(&with[0].0, &with[0].1);
+    if let Err(e) = &first {
+        sec.violations.push(Violation { reason: format!("HARNESS: {}", e), case: Value::Null, signature: "harness-miri".into() });
+        return sec;
+    }
+    let next = std::sync::atomic::AtomicUsize::new(0);
+    let results: std::sync::Mutex<Vec<(usize, Result<Miri, String>)>> = std::sync::Mutex::new(Vec::new());
+    std::thread::scope(|sc| {
+        for _ in 0..ctx.workers.min(16) {
+            let (next, results, with) = (&next, &results, &with);
+            sc.spawn(move || loop {
+                let i = next.fetch_add(1, std::sync::atomic::Ordering::Relaxed);
+                if i >= with.len() {
+                    break;
+                }
+                let r = run_miri(&with[i].0, &with[i].1);
+                results.lock().unwrap().push((i, r));
+            });
+        }
+    });
+    let mut results = results.into_inner().unwrap();
+    results.sort_by_key(|r| r.0);
+    let mut skipped = 0u64;
+    for (i, r) in results {
+        let c = &with[i].0;
+        let lw = if c.rot & 1 == 1 { c.h } else { c.w } as u32;
+        let lh = if c.rot & 1 == 1 { c.w } else { c.h } as u32;
+        let rc = Rect { x: c.rx, y: c.ry, w: c.rw, h: c.rh };
+        let mut info = CaseInfo::default();
+        match r {
+            Ok(Miri::OutOfAddressSpace) => {
+                skipped += 1;
+                continue;
+            }
+            Ok(Miri::Agree) => {}
+            Ok(Miri::Mismatch(why)) => {
+                if sec.violations.len() < 3 {
+                    sec.violations.push(Violation { reason: why, case: case16_json(c), signature: "c04:16-bit".into() });
+                }
+            }
+            Err(e) => {
+                if !sec.violations.iter().any(|v| v.signature == "harness-miri") {
+                    sec.violations.push(Violation { reason: format!("HARNESS: {}", e), case: Value::Null, signature: "harness-miri".into() });
+                }
+                continue;
+            }
+        }
+        info.nontrivial = clipped(&rc, lw, lh) && first_visible_index(&rc, lw, lh).map(|f| (c.len as u64) > f || c.len == u32::MAX).unwrap_or(false);
+        if clipped(&rc, lw, lh) {
+            info.label("clipped");
+        }
+        if c.len == u32::MAX {
+            info.label("infinite-stream");
+        }
+        #[derive(serde::Serialize, Hash)]
+        struct K(u8, u16, u16, u16, u16, u8, bool, i32, i32, u32, u32, u32, u32);
+        sec.stats.record(&K(c.model, c.w, c.h, c.ox, c.oy, c.rot, c.mirrored, c.rx, c.ry, c.rw, c.rh, c.len, c.seed), &info);
+    }
+    sec.extra.insert("skipped_out_of_miri_address_space".into(), serde_json::json!(skipped));
+    sec
+}
+
+/// host-side run of the extracted 16-bit helpers with counts beyond 65535 (see /verif/helpers16)
+fn section_helpers(ctx: &Ctx) -> Section {
+    let mut sec = Section::new(
+        &format!("helpers16-host[{}]", ctx.variant),
+        "the crate's #[cfg(target_pointer_width = \"16\")] take_u32 / nth_u32 (extracted from src/graphics.rs at text level and compiled on the host) against the standard library's take / nth over streams of 0 .. 2^20+5 items and endless streams, counts 0 .. 2^20 with emphasis on 65534..65538 and 131071..131073: same items, same count, same stream position after the call, twice in a row; non-trivial = count and stream length beyond 65535 (out of reach of Miri's 16-bit address space)",
+    );
+    let tdir = std::env::var("VERIF_TARGET_DIR").unwrap_or_else(|_| "/verif/target".into());
+    let out = std::process::Command::new("cargo")
+        .args(["run", "--release", "--offline", "--target-dir", &format!("{}/helpers16", tdir)])
+        .current_dir("/verif/helpers16")
+        .env("CARGO_NET_OFFLINE", "true")
+        .output();
+    let (stdout, stderr) = match out {
+        Ok(o) => (String::from_utf8_lossy(&o.stdout).to_string(), String::from_utf8_lossy(&o.stderr).to_string()),
+        Err(e) => (String::new(), e.to_string()),
+    };
+    let mut seen = false;
+    for line in stdout.lines() {
+        if let Some(rest) = line.strip_prefix("H16X-OK evaluations=") {
+            seen = true;
+            let mut it = rest.split_whitespace();
+            sec.stats.evaluations = it.next().and_then(|s| s.parse().ok()).unwrap_or(0);
+            let beyond: u64 = it.next().and_then(|s| s.strip_prefix("beyond_65535=")).and_then(|s| s.parse().ok()).unwrap_or(0);
+            for i in 0..beyond {
+                sec.stats.nontrivial.insert(i);
+            }
+            sec.stats.samples.push(serde_json::json!({"helper": "take_u32", "stream_len": 200000, "max_count": 65536}));
+            sec.stats.samples.push(serde_json::json!({"helper": "nth_u32", "stream_len": "endless", "n": 131072}));
+        } else if let Some(rest) = line.strip_prefix("H16X-FAIL ") {
+            seen = true;
+            if sec.violations.len() < 2 {
+                sec.violations.push(Violation { reason: format!("16-bit helper (host build): {}", rest), case: serde_json::json!({"helpers16": rest}), signature: "c04:16-bit-helper".into() });
+            }
+        } else if line.starts_with("H16X-UNAVAILABLE") {
+            seen = true;
+            sec.extra.insert("unavailable".into(), serde_json::json!(line));
+        }
+    }
+    if !seen {
+        // extraction or compilation failed (e.g. the helpers were restructured): recorded, not judged
+        let tail: String = stderr.chars().rev().take(600).collect::<String>().chars().rev().collect();
+        sec.extra.insert("unavailable".into(), serde_json::json!(format!("helpers16 did not build/run: {}", tail)));
+    }
+    sec
+}
+
+pub fn replay16(case: &Value) -> Result<(), String> {
+    let c = case16_from_json(case).ok_or("HARNESS: cannot parse 16-bit case")?;
+    let o = run_case(&c);
+    match run_miri(&c, &o) {
+        Ok(Miri::Mismatch(why)) => Err(why),
+        Ok(_) => Ok(()),
+        Err(e) => Err(format!("HARNESS: {}", e)),
+    }
+}
+
 pub fn run(ctx: &Ctx) -> Report {
     let mut rep = Report::new("C04", "exploration");
     rep.assumptions = vec![
@@ -120,9 +388,23 @@ pub fn run(ctx: &Ctx) -> Report {
     let n = ctx.cases(40_000, 1_500_000);
     run_generated(&mut sec, ctx.seed, n, ctx.workers, || strategy(gen::ConfigMenu::all_transports()), check, sig);
     rep.sections.push(sec);
+    if std::env::var("VERIF_SKIP_MIRI").is_err() {
+        rep.sections.push(section16(ctx));
+    }
+    rep.sections.push(section_helpers(ctx));
     rep
 }
 
-pub fn replay(_section: &str, case: &Value) -> Result<(), String> {
+pub fn replay(section: &str, case: &Value) -> Result<(), String> {
+    if section.starts_with("msp430") {
+        return replay16(case);
+    }
+    if section.starts_with("helpers16") {
+        let mut s = section_helpers(&Ctx { tier: super::Tier::Quick, seed: 1, workers: 1, variant: "replay".into() });
+        return match s.violations.pop() {
+            Some(v) => Err(v.reason),
+            None => Ok(()),
+        };
+    }
     check(&de::<ProgCase>(case)?, &mut CaseInfo::default())
 }
